@@ -51,6 +51,7 @@ pub fn run(outdir: &Path, tier: &str, seed: u64, shards: usize, replay: Option<S
                     TypeDef::Object { name: "Query".into(), implements: vec![], fields: vec![FieldDef::new("dog", GType::named("Dog"))] },
                 ],
                 schema_block: None,
+                input_defaults: vec![],
             },
             doc: QueryDoc { defs: vec![QDef::Op { kind: OpKind::Query, name: Some("Q".into()), vars: vec![], sel: vec![Sel::obj("dog", vec![Sel::field("old"), Sel::field("older")])] }] },
             opts: Opts { operation_name: Some("Q".into()), ..Opts::default() },
